@@ -5,6 +5,7 @@ import HpxVerif.Lemmas.EdgeExternal4
 import HpxVerif.Gen.Consts
 import HpxVerif.Lemmas.NoBmi
 import HpxVerif.Lemmas.SizeGen
+import HpxVerif.Lemmas.EdgeExternal5
 
 set_option autoImplicit false   -- an unknown identifier in a statement is an error, never a new variable
 
@@ -330,5 +331,99 @@ theorem masks_from_source (cfg : Cfg) :
     (List.range 33).map (Topo.xMaskFn cfg) = Gen.Size.xMask ∧
     (List.range 33).map (Topo.yMaskFn cfg) = Gen.Size.yMask ∧
     (List.range 33).map (Topo.xyMaskFn cfg) = Gen.Size.xyMask := Hpx.SizeGen.masks_from_source cfg
+
+
+/-! ## external edges for EVERY `delta_depth` (0 included, since the repair of the masks): at `delta_depth = 0` the external
+edge is the list of the neighbours -/
+
+section ExternalEdgesAllDelta
+open Hpx Hpx.Topo Hpx.TopoSpec Hpx.TopoNeigh Hpx.TopoLift Hpx.EdgeInternal Hpx.EdgeExternal MW
+
+/-- **C14, `external_edge_delta0`**: with `delta_depth = 0`, `external_edge` (`s = false`) and `external_edge_sorted`
+    (`s = true`) do not panic and return the neighbours of `hash` (the values of `neighbours(hash)`: in `MainWind` index
+    order for `s = false`, by increasing cell number for `s = true`).  Every depth `d ≤ 29`, every cell number of the
+    depth, any build (debug or release, LUT or BMI). -/
+theorem external_edge_delta0 (cfg : Cfg) (d : Nat) (hd : d ≤ 29) (hash : Nat) (hh : hash < 12 * 4 ^ d) (s : Bool) :
+    externalEdge cfg d hash 0 s = some ((orderOf s (nbList d hash false)).map (·.2)) :=
+  Hpx.EdgeExternal.external_edge_delta0 cfg d hd hash hh s
+
+/-- **C14, `external_edge_struct_delta0`**: with `delta_depth = 0`, `external_edge_struct` does not panic and files each
+    neighbour `(dir, hv)` of `hash` under `dir`, as the one-element list `[hv]` (corner for a cardinal `dir`, edge for an
+    ordinal `dir`) -/
+theorem external_edge_struct_delta0 (cfg : Cfg) (d : Nat) (hd : d ≤ 29) (hash : Nat) (hh : hash < 12 * 4 ^ d) :
+    externalEdgeStruct cfg d hash 0 = some ((nbList d hash false).map fun e => (e.1, [e.2])) :=
+  Hpx.EdgeExternal.external_edge_struct_delta0 cfg d hd hash hh
+
+/-- membership: `h'` is in `external_edge*(hash, 0)` iff it is a cell number of the depth, different from `hash`, whose
+    cell shares a vertex with the cell `hash` as points of the sphere (`TopoSpec.Touch`), i.e. iff it is a neighbour -/
+theorem external_edge_delta0_mem (cfg : Cfg) (d : Nat) (hd : d ≤ 29) (hash : Nat) (hh : hash < 12 * 4 ^ d) (s : Bool) :
+    ∃ l, externalEdge cfg d hash 0 s = some l ∧ ∀ h', h' ∈ l ↔
+      (h' < 12 * 4 ^ d ∧ h' ≠ hash ∧ Touch (2 ^ d) (partsOf d hash) (partsOf d h')) :=
+  Hpx.EdgeExternal.external_edge_delta0_mem cfg d hd hash hh s
+
+/-- length = number of neighbours: 8, 7 for the 24 cells with 7 neighbours (`Special`, i.e. `hash ∈ specialHashes d`),
+    6 at depth 0 (both orders) -/
+theorem external_edge_delta0_length (cfg : Cfg) (d : Nat) (hd : d ≤ 29) (hash : Nat) (hh : hash < 12 * 4 ^ d) (s : Bool) :
+    ∃ l, externalEdge cfg d hash 0 s = some l ∧
+      l.length = (nbList d hash false).length ∧
+      l.length = (if d = 0 then 6 else if Special (2 ^ d) (partsOf d hash) then 7 else 8) ∧
+      (Special (2 ^ d) (partsOf d hash) ↔ hash ∈ specialHashes d) :=
+  Hpx.EdgeExternal.external_edge_delta0_length cfg d hd hash hh s
+
+/-- **C14, `external_edge_spec` for every `delta_depth`** (`0` included): on a cell number of the depth, `d + dd ≤ 29`,
+    `external_edge` (`s = false`) and `external_edge_sorted` (`s = true`) do not panic and return the concatenation, over
+    the neighbours `(dir, hv)` of `hash` (in `MainWind` index order / by increasing number), of the sub-cells of `hv` on its
+    side / corner facing `hash`.  Any build. -/
+theorem external_edge_spec_all_delta (cfg : Cfg) (d dd : Nat) (hsum : d + dd ≤ 29) (hash : Nat)
+    (hh : hash < 12 * 4 ^ d) (s : Bool) :
+    externalEdge cfg d hash dd s = some (externalList d hash dd s) :=
+  Hpx.EdgeExternal.external_edge_spec_all_delta cfg d dd hsum hash hh s
+
+/-- **C14, `external_edge_struct_spec` for every `delta_depth`** (`0` included) -/
+theorem external_edge_struct_spec_all_delta (cfg : Cfg) (d dd : Nat) (hsum : d + dd ≤ 29) (hash : Nat)
+    (hh : hash < 12 * 4 ^ d) :
+    externalEdgeStruct cfg d hash dd =
+      some ((nbList d hash false).map fun e => (e.1, sideList e.2 dd (fromD d hash e.1))) ∧
+    ∀ dir hv, (dir, hv) ∈ nbList d hash false →
+      (sideList hv dd (fromD d hash dir)).length = (if dir.isCardinal then 1 else 2 ^ dd) ∧
+      (fromD d hash dir).isCardinal = dir.isCardinal :=
+  Hpx.EdgeExternal.external_edge_struct_spec_all_delta cfg d dd hsum hash hh
+
+/-- **C14, `external_edge_set` for every `delta_depth`** (`0` included; soundness and completeness): the members of the
+    external edge are exactly the cell numbers `h'` of depth `d + dd` that lie outside `hash` and share a vertex, as points
+    of the sphere, with some descendant `h''` of `hash` at depth `d + dd`.  Both orders, any build. -/
+theorem external_edge_set_all_delta (cfg : Cfg) (d dd : Nat) (hsum : d + dd ≤ 29) (hash : Nat)
+    (hh : hash < 12 * 4 ^ d) (s : Bool) :
+    ∃ l, externalEdge cfg d hash dd s = some l ∧ ∀ h', h' ∈ l ↔
+      (h' < 12 * 4 ^ (d + dd) ∧ h' / 4 ^ dd ≠ hash ∧
+        ∃ h'', h'' / 4 ^ dd = hash ∧ Touch (2 ^ (d + dd)) (partsOf (d + dd) h') (partsOf (d + dd) h'')) :=
+  Hpx.EdgeExternal.external_edge_set_all_delta cfg d dd hsum hash hh s
+
+/-- **C14, `external_edge_nodup` for every `delta_depth`** (`0` included): no duplicates, both orders -/
+theorem external_edge_nodup_all_delta (cfg : Cfg) (d dd : Nat) (hsum : d + dd ≤ 29) (hash : Nat)
+    (hh : hash < 12 * 4 ^ d) (s : Bool) :
+    ∃ l, externalEdge cfg d hash dd s = some l ∧ l.Nodup :=
+  Hpx.EdgeExternal.external_edge_nodup_all_delta cfg d dd hsum hash hh s
+
+/-- **C14, `external_edge_sorted_spec` for every `delta_depth`** (`0` included): `external_edge_sorted` returns a strictly
+    increasing list, which is a permutation of the result of `external_edge` -/
+theorem external_edge_sorted_spec_all_delta (cfg : Cfg) (d dd : Nat) (hsum : d + dd ≤ 29) (hash : Nat)
+    (hh : hash < 12 * 4 ^ d) :
+    ∃ ls lu, externalEdge cfg d hash dd true = some ls ∧ externalEdge cfg d hash dd false = some lu ∧
+      ls.Pairwise (· < ·) ∧ ls.Perm lu ∧ (∀ h', h' ∈ ls ↔ h' ∈ lu) ∧ ls.length = lu.length :=
+  Hpx.EdgeExternal.external_edge_sorted_spec_all_delta cfg d dd hsum hash hh
+
+/-- **C14, `external_edge_length` for every `delta_depth`** (`0` included): `4·2^dd` cells along the four sides plus one
+    corner cell per cardinal neighbour: `4·2^dd + 4` in general, `+ 3` for the 24 cells with 7 neighbours, `+ 2` at depth 0
+    (both orders); at `dd = 0` this is the number of neighbours `8`, `7`, `6` -/
+theorem external_edge_length_all_delta (cfg : Cfg) (d dd : Nat) (hsum : d + dd ≤ 29) (hash : Nat)
+    (hh : hash < 12 * 4 ^ d) (s : Bool) :
+    ∃ l, externalEdge cfg d hash dd s = some l ∧
+      l.length = 4 * 2 ^ dd + ((nbList d hash false).filter fun e => e.1.isCardinal).length ∧
+      l.length = 4 * 2 ^ dd + (if d = 0 then 2 else if Special (2 ^ d) (partsOf d hash) then 3 else 4) :=
+  Hpx.EdgeExternal.external_edge_length_all_delta cfg d dd hsum hash hh s
+
+
+end ExternalEdgesAllDelta
 
 end Hpx.C14
